@@ -30,6 +30,19 @@ if os.environ.get('VERIF_SIM_NO_RIPEMD'):
             raise ValueError('unsupported hash type ' + name)
         return _real_hashlib_new(name, data, **kw)
     hashlib.new = _hashlib_new_without_ripemd
+    # ... and an environment where the optional third-party `mmh3` extension IS installed (it is not in this sandbox): a faithful
+    # stand-in with mmh3's documented signature hash(key, seed=0, signed=True) -> 32-bit MurmurHash3 (x86_32), signed by default
+    import types as _types
+    from .ref import murmur as _ref_murmur
+
+    def _mmh3_hash(key, seed=0, signed=True):
+        if isinstance(key, str):
+            key = key.encode('utf8')
+        v = _ref_murmur.murmur3(seed & 0xffffffff, bytes(key))
+        return v - (1 << 32) if signed and v >= 1 << 31 else v
+    if 'mmh3' not in sys.modules:
+        _m = _types.ModuleType('mmh3'); _m.hash = _mmh3_hash; _m.__version__ = '4.0.1'
+        sys.modules['mmh3'] = _m
 
 VERIF = os.path.dirname(os.path.dirname(os.path.abspath(__file__)))
 REPO = os.path.abspath(os.environ.get('VERIF_REPO', '/repo'))
